@@ -4369,6 +4369,10 @@ class ParameterizedMetaclass(type):
             if not hasattr(cls, '_param__parameters'):
                 continue
             for dep in cls.param._depends['watch']:
+                # Entries that cls itself inherited are taken from the
+                # class that declares the method, following the MRO
+                if dep[0] not in cls.__dict__:
+                    continue
                 method = getattr(mcs, dep[0], None)
                 dinfo = getattr(method, '_dinfo', {'watch': False})
                 if (not any(dep[0] == w[0] for w in _watch+_inherited)
